@@ -28,7 +28,7 @@ TRUSTED = [
 ASSUMPTIONS = ["pointer strings without leading blanks and without backslashes (as the property states)",
                "integer-like tokens within +-(2**53-1)"]
 
-ALPHABET = ["~", "/", "0", "1", "-", "+", " ", "#", "é", "a", "", "~0", "~1", "~01", "01", "-1", "+1", "1_0", "１", "1１", "1٠"]
+ALPHABET = ["~", "/", "0", "1", "-", "+", " ", "#", "é", "a", "", "~0", "~1", "~01", "01", "-1", "+1", "1_0", "１", "1１", "1٠", "-0", "-00", "1٢"]
 
 
 def _seqs(ctx):
